@@ -46,7 +46,7 @@ func (c *Ctx) text(label string) string {
 }
 
 // PathVarPrims are the primitive types used for typed path variables.
-var PathVarPrims = []Prim{Prims[0], Prims[0], Prims[6], Prims[7], Prims[8], Prims[9], Prims[10], Prims[12], Prims[1]}
+var PathVarPrims = []Prim{Prims[0], Prims[0], Prims[6], Prims[7], Prims[8], Prims[9], Prims[10], Prims[12], Prims[1], Prims[2], Prims[5], Prims[3], Prims[11]}
 
 // Composition draws a whole document from D_core.
 func (c *Ctx) Composition(o CompOpts) *Doc {
